@@ -6,7 +6,9 @@ CONSTANTS
   Header = "dup"
   Merge = "grid"
   Sep = "each"
+  Dedup = "none"
   MaxSpecial = 1
   FullCells = 0
+  MaxRepeat = 2
 INVARIANTS RoundTrip
 CHECK_DEADLOCK FALSE
